@@ -18,7 +18,7 @@ out=$ROOT/verify.tsv
 : > $out
 # two layouts: <root>/<id>/out/<x>/ (as the sub-agents deliver) and <root>/<id>-<x>/ (as stored in /verif/seeded,
 # demos named *_test.go.txt)
-for d in $ROOT/C*/out/[abc] $ROOT/C??-?; do
+for d in $ROOT/C*/out/[abc1-9] $ROOT/C??-?; do
   [ -f $d/patch.diff ] || continue
   case $d in
     */out/*) id=$(basename $(dirname $(dirname $d))); x=$(basename $d);;
@@ -32,6 +32,7 @@ for d in $ROOT/C*/out/[abc] $ROOT/C??-?; do
   pkgdir=.
   if grep -q "^package sshfx" $demo; then pkgdir=internal/encoding/ssh/filexfer; fi
   if grep -q "^package openssh" $demo; then pkgdir=internal/encoding/ssh/filexfer/openssh; fi
+  if grep -q "^package main" $demo; then pkgdir=server_standalone; fi
   tests=$(grep -ho "^func Test[A-Za-z0-9_]*" $demo | sed 's/func //' | paste -sd'|')
   # clean tree: demo passes
   cp $demo $pkgdir/
@@ -45,6 +46,13 @@ for d in $ROOT/C*/out/[abc] $ROOT/C??-?; do
   fi
   cp $demo $pkgdir/
   if timeout 300 go test -vet=off -count=1 -run "^($tests)\$" ./$pkgdir >$SV/mut.log 2>&1; then mut=PASS-unexpected; else mut=fails; fi
+  if [ $mut = PASS-unexpected ]; then
+     # a fault of 32-bit builds: the demonstration is run as a GOARCH=386 binary, with and without the patch
+     if GOARCH=386 timeout 300 go test -vet=off -count=1 -run "^($tests)\$" ./$pkgdir >$SV/mut386.log 2>&1; then :; else
+        git checkout -q -- . ; cp $demo $pkgdir/
+        if GOARCH=386 timeout 300 go test -vet=off -count=1 -run "^($tests)\$" ./$pkgdir >$SV/clean386.log 2>&1; then mut="fails(GOARCH=386)"; fi
+     fi
+  fi
   rm -f $pkgdir/$(basename $demo)
   echo -e "$id\t$x\tbuild=$build\tsuite=$suite\tdemo_clean=$clean\tdemo_patched=$mut" >> $out
 done
